@@ -36,6 +36,44 @@ def histories(rng, sc, ncases, nprefix):
     return hs
 
 
+def shape_histories(rng, sc, tier, drv):
+    """archives that vary the *header* rather than the call history: every sequence of up to two (thorough: three) extended
+    header types - repeats included, so a second file name / path / user / group header replaces a value already stored -
+    in level 1 (also with a directory part inside the in-header name, which sets the path before any path header is seen),
+    2 and 3 headers; ground truth from a reference run; the history is next, next, next"""
+    import itertools
+    import arc, gtref
+    import headergen as HG
+    types = [0x00, 0x01, 0x02, 0x41, 0x50, 0x51, 0x52, 0x53, 0x54, 0xCC, 0x99]
+    archives = []
+    k = 0
+    for L in range(0, 3 if tier == "quick" else 4):
+        for combo in itertools.product(types, repeat=L):
+            k += 1
+            if L == 3 and k % 4:
+                continue
+            shapes = [(1, b"sub\\inhdr"), (1, b"inhdr"), (2, b""), (3, b"")]
+            for lvl, nm in (shapes if tier != "quick" else [shapes[0], shapes[1 + k % 3]]):
+                exts = [HG.EXT_BUILDERS[t](rng) for t in combo]
+                if lvl >= 2 and 0x01 not in combo:
+                    exts.append(arc.x_name(b"nm%d" % k))
+                m = arc.Member(level=lvl, method=b"-lh0-", name=nm, payload=b"abc", time=12345678, os=rng.choice(HG.OSES), exts=exts)
+                a = os.path.join(sc, "shape%d_%d%s.lzh" % (k, lvl, "p" if b"sub" in nm else ""))
+                open(a, "wb").write(m.bytes() + RG.G("file", b"second", data=b"2nd", level=2).raw() + b"\0")
+                archives.append(a)
+    truths, bad = gtref.reference_truths(drv, archives, sc, tag="shaperef")
+    if bad:
+        raise V.HarnessError("reference run failed on header-shape archives: %r" % (bad[:2],))
+    hs = []
+    for a in archives:
+        if a not in truths:
+            continue
+        g = a[:-4] + ".gt.json"
+        open(g, "w").write(json.dumps({"e": "Reset", "case": os.path.basename(a), "policy": "eod", "arc": truths[a]}, separators=(",", ":")) + "\n")
+        hs.append((g, a, "eod", ["N", "N", "N"], "path"))
+    return hs
+
+
 def run(tier, seed, ev):
     rng = random.Random(seed)
     sc = V.scratch("c20")
@@ -45,6 +83,9 @@ def run(tier, seed, ev):
         mc = ex.submit(V.tlc_must_pass, "MC_Reader", "MC_Reader_c20" if tier == "quick" else "MC_Reader_c20_t", workers=8, xmx="12g", timeout=2400)
         drv = V.build_driver("reader_drv", "san", wrap=True)
         hs = histories(rng, sc, 40 if tier == "quick" else 400, 2 if tier == "quick" else 6)
+        nhist = len(hs)
+        hs += shape_histories(rng, sc, tier, drv)
+        ev.set("header_shape_archives", len(hs) - nhist)
         # pass 1: fault-free runs, to count allocations
         jobs1 = []
         for i, (g, a, pol, ops, kind) in enumerate(hs):
